@@ -10,6 +10,7 @@ def Clean (s : State) : Prop := s.d5 = 0 ∧ s.d6 = 0
 
 structure Inv (k : Bool) (s : State) : Prop where
   hk : s.timed = k
+  hfx : s.fixed = false
   /-- `_shared_owners_count` never underflows: every shared holder is counted -/
   sh_cnt : s.sh.length ≤ s.cnt
   /-- as long as no D5/D6 path was taken the flags describe the holders exactly: free / one writer / readers -/
@@ -20,13 +21,13 @@ structure Inv (k : Bool) (s : State) : Prop where
   dl_tx : ∀ g r d, s.pc g = .txParked r d → r ≤ d
   dl_ts : ∀ g r d, s.pc g = .tsParked r d → r ≤ d
 
-theorem inv_init (k : Bool) (n : Nat) : Inv k (init k n) := by
-  constructor <;> simp [init, Clean] <;> intro g <;> split <;> simp
+theorem inv_init (k : Bool) (n : Nat) : Inv k (init k false n) := by
+  constructor <;> (simp only [init, Clean]) <;> grind
 
-theorem wake_ne_txParked (p : Pc) (r d : Nat) (h : wake p = .txParked r d) : p = .txParked r d ∧ False := by
-  cases p <;> simp_all [wake]
-theorem wake_ne_tsParked (p : Pc) (r d : Nat) (h : wake p = .tsParked r d) : p = .tsParked r d ∧ False := by
-  cases p <;> simp_all [wake]
+theorem wake_ne_txParked (b : Bool) (p : Pc) (r d : Nat) (h : wake b p = .txParked r d) : p = .txParked r d ∧ False := by
+  cases p <;> cases b <;> simp_all [wake]
+theorem wake_ne_tsParked (b : Bool) (p : Pc) (r d : Nat) (h : wake b p = .tsParked r d) : p = .tsParked r d ∧ False := by
+  cases p <;> cases b <;> simp_all [wake]
 
 theorem length_one_erase {l : List Fid} {f : Fid} (h : f ∈ l) (h1 : l.length = 1) : l.erase f = [] := by
   have := Mx.length_erase_mem h
@@ -36,7 +37,7 @@ theorem length_zero_nil {l : List Fid} (h : l.length = 0) : l = [] := List.lengt
 
 macro "sm_auto" : tactic =>
   `(tactic| (constructor <;> (try simp only [lockHelper, sharedHelper, sharedHelperX, bumpX, bumpS, notifyE, notifyAllS, doUnlock,
-      doUnlockS, parkE, parkS, XHeld, Clean, UnlockPick, UnlockSPick, PickOk] at *) <;>
+      doUnlockS, doUnlockF, parkE, parkS, XHeld, Clean, UnlockPick, UnlockSPick, PickOk] at *) <;>
       grind [upd_apply, mem_rm, Mx.length_erase_mem, length_one_erase, length_zero_nil, List.length_append,
         wake_ne_txParked, wake_ne_tsParked]))
 
@@ -46,5 +47,6 @@ def grpOf : Label → Nat
   | .unlockS _ _ => 2
   | .txAcq _ => 3 | .txPark _ _ _ _ => 3 | .txTimeout _ _ => 3 | .tsAcq _ => 3 | .tsPark _ _ _ _ => 3
   | .tsTimeout _ _ => 3 | .sleepStart _ _ _ => 3 | .sleepWake _ _ => 3 | .finish _ => 3
+  | .txRepark _ _ => 3 | .tsRepark _ _ => 3
 
 end Yaclib.FiberSync.Sm
